@@ -102,10 +102,22 @@ def run_case(case, ctx):
         ctx.excluded("round(alpha*n)=0: nothing to train on")
         return
     Xk, yk = X.copy(), y.copy()
+    # containers: targets / weights as pandas Series whose index is a permutation of the positions, X as a frame
+    import pandas
+    cont = ["ndarray", "ndarray", "series-shuffled-index", "ndarray", "frame+series"][(case["sub"] // 5) % 5]
+    cfg["container"] = cont
+    ctx.cls("container=" + cont)
+    Xin, yin, win = X, y, w
+    if cont != "ndarray":
+        ix = numpy.random.RandomState(case["sub"] % 1000 + 5).permutation(n)
+        yin = pandas.Series(y, index=ix)
+        win = None if w is None else pandas.Series(w, index=ix)
+        if cont == "frame+series":
+            Xin = pandas.DataFrame(X, columns=["id", "a", "b"], index=ix)
     numpy.random.seed(case["sub"] % (2 ** 31))
     ir = IntervalRegressor(estimator=Rec(base=case["base"]), n_estimators=m, alpha=alpha, n_jobs=case["n_jobs"])
     try:
-        r = ir.fit(X, y) if w is None else ir.fit(X, y, sample_weight=w)
+        r = ir.fit(Xin, yin) if w is None else ir.fit(Xin, yin, sample_weight=win)
     except Exception as e:
         ctx.hit("fit.sample_size")
         if zero_w and "non-zero" in str(e):
